@@ -86,6 +86,51 @@ CHECKS = {
         'and handles exactly the documented embedding_type values. Equality of the learned matrix with the documented formula on any '
         'dataset (scatter algebra, whitening identity, singular covariances) is NOT decided. Known finding: LFDA local-scale axis.'),
   note=TB),
+ 'C10': dict(
+  technique='static analysis: guard normalisation (linear normal form of the acceptance test with local substitution), who-may-write on the accepted iterate, value-flow of the initial transformation to the optimiser, sibling agreement of sign factors, must-pass-through of the self-exclusion',
+  text=('Decides the control/data-flow clauses only: LMNN leaves its retry loop only when objective_next - objective > 0 is false, the '
+        'rejecting branch changes nothing but the learning rate, L is only the initialisation or an accepted candidate (so accepted '
+        'objectives are non-increasing and the result is never worse than the init; zero iterations return the init); NCA/MLKR hand '
+        'x0 = init.ravel() to scipy.optimize.minimize and store the reshaped result; the (value, gradient) callback returns both with '
+        'the same sign factor, bound to a negative literal for NCA; np.fill_diagonal(dist, inf) precedes the soft-max on every path. '
+        'That value and gradient EQUAL the documented objective and its derivative is NOT decided.'),
+  note=TB),
+ 'C11': dict(
+  technique='static analysis: inductive sign invariant of the dual updates (index agreement modulo commutativity), who-may-write rule on the metric (rank-one updates only), option table for strict_pd',
+  text=('Decides: ITML\'s duals start at zero and are only decreased by alpha = min(lambda[e], .) at the same index e, so all '
+        'lambda_i >= 0 is an inductive invariant of both projection loops; between the prior and components_from_metric the matrix is '
+        'written only by rank-one updates A += outer(Av, Av*beta) (Sherman-Morrison: M^-1 - M0^-1 is a combination of v v^T); the prior '
+        'is requested strictly PD. Tightness/inactivity at convergence, KKT optimality and "prior returned unchanged" are NOT decided.'),
+  note=TB),
+ 'C12': dict(
+  technique='static analysis: guard normalisation of the acceptance test, symbolic spectral form of the SPD floor, dependence sets of loss vs search direction (sibling agreement), FRESH rule for the weights',
+  text=('Decides: s_best starts as the loss at the prior, (M_best, s_best) change only under cur_s < s_best, M is replaced only by a '
+        'non-None M_best and components_ comes from M (never worse than the prior); every candidate is V Diag(max(w, eps>0)) V^T; the '
+        'search direction reads every input the loss reads (metric, vab, vcd, prior_inv, w_) - also for MMC\'s value/derivative pairs; '
+        'the caller\'s weights are not modified. Stationarity and global minimality are NOT decided.'),
+  note=TB),
+ 'C13': dict(
+  technique='static analysis: dependence sets at the graphical-lasso call site (which element of the prior pair, which hyper-parameters, labels), dominance of the result vetting over the store of components_, exception-class resolution',
+  text=('Decides: the solver input depends on the INVERSE prior (element 1 of the (M, M^-1) pair requested with return_inverse=True, '
+        'strict_pd=True for self.prior), on balance_param, on the pair differences and on the labels; alpha is self.sparsity_param; '
+        'components_ is stored only after the test on raised_error / negative eigenvalue / non-finite entries of the result, whose other '
+        'branch raises RuntimeError. That the solver output minimises the objective is NOT decided.'),
+  note=TB),
+ 'C14': dict(
+  technique='static analysis: who-may-write on the best iterate, guard normalisation (error2 < eps), symbolic spectral form of the PSD clip, statement-order rule for the budget, sign algebra on the diagonal candidates, must-follow rule for assert_all_finite',
+  text=('Decides: MMC returns A_old, written only as a copy of the initial matrix or by A_old[:] = A under `satisfy`, which is set only '
+        'under error2 < eps directly after the PSD clip V Diag(max(0,l)) V^T; the iterations start from self.init and the budget is one '
+        'hundredth of w.A computed before any update; in the diagonal variant every candidate is np.maximum(0, .) and A_ = diag(w); '
+        'every objective evaluation is followed by assert_all_finite. That the budget is met numerically is NOT decided.'),
+  note=TB),
+ 'C15': dict(
+  technique='static analysis: sign algebra over the weight update, symbolic matrix-algebra evaluation of _components_from_basis_weights, guard normalisation of the checkpoint, value-flow of normalize(), shared definite-assignment and RNG rules',
+  text=('Decides under gamma > 0: every assignment to the SCML weights is non-negative (negative scale times np.minimum(.,0)); both '
+        'branches of _components_from_basis_weights give L^T L = B^T Diag(w) B over the active rows, the low-rank one with a warning; '
+        'best_w changes only under obj < best_obj together with best_obj; LDA basis rows pass through normalize; every basis option path '
+        'is executable and all randomness comes from check_random_state(self.random_state). Equality with the documented dual-averaging '
+        'iterates for a seed is NOT decided.'),
+  note=TB + ' Hyper-parameter ranges of the property quantifier (gamma > 0, max_iter >= output_iter >= 1).'),
  'C17': dict(
   technique='static analysis: ownership/aliasing abstract interpretation (FRESH: view- vs copy-producing operations) of every in-place write construct, who-may-call / value-flow rule for random generators and seeded components, typestate (read-before-assign of fitted attributes, conditional assignment), transitive effect sets of query methods, closure free-variable freshness',
   text=('Decides over all call histories, for all 17 estimators: no global numpy.random/random call and every draw is on '
@@ -121,7 +166,7 @@ CHECKS = {
 
 _PENDING = 'check not built yet in this revision of /verif (see DESIGN.md section 9 build order); nothing is claimed for it'
 NOT_APPLICABLE = {p: _PENDING for p in
-  ['C10','C11','C12','C13','C14','C15','C19']}
+  ['C19']}
 NOT_APPLICABLE['C16'] = ('optimality of a cut-off over a labelled multiset of distances with ties is a property of runtime '
                          'values; no structural necessary condition of it exists that a sound static rule can name without '
                          'also firing on correct tie-aware rewrites; its parameter-validation sentence is checked as C06(7)')
